@@ -1,5 +1,466 @@
-import NibabelModel.Model.C15
-/-! Props/C15 — the property theorems for C15 (statements + proofs; helper lemmas live in Lemmas/). -/
+import NibabelModel.Lemmas.C15
+/-! Props/C15 — ArraySequence is observationally a list of arrays under any history.
+
+  `Inv` (Lemmas/C15.lean) is the storage invariant: every range lies in the written prefix of its
+  buffer, lengths are positive, a buffer has at most one owning (non-view) sequence, every range
+  of every sequence sharing an owner's buffer ends at or before the owner's next offset (the
+  owner's tail is not shared), and two ranges of one buffer are equal or disjoint.
+
+  Proved for ALL states satisfying `Inv` / all histories over the operations `Op.core`
+  (new, one-shot append, ArraySequence(seq), copy, slice / list / mask / int getitem, int and
+  slice setitem, in-place arithmetic).  NOT yet proved (the `_partial` suffixes): the cached-build
+  loops (`extend`, `extend(generator)`, `extend(seq)`, `concatenate`) and `seq op k`; they are
+  covered by the correspondence run and the oracle only.
+-/
 namespace Nb.C15
+open Nb
+
+/-- operations of the proved fragment -/
+def Op.core : Op → Bool
+  | .new _ | .append .. | .view .. | .copy _ | .slice .. | .fancy .. | .mask .. | .getInt ..
+  | .setInt .. | .setSlice .. | .iop .. => true
+  | _ => false
+
+theorem pyIntIndex_lt {n : Nat} {i : Int} {j : Nat} (h : pyIntIndex n i = some j) : j < n := by
+  unfold pyIntIndex at h
+  split at h
+  · cases h; omega
+  · split at h
+    · cases h; omega
+    · cases h
+
+theorem getD_mem {α} (l : List α) (j : Nat) (d : α) (h : j < l.length) : l.getD j d ∈ l := by
+  simp [List.getD, h]
+
+/-- every operation of the fragment keeps the storage invariant -/
+theorem inv_step {σ σ' : State} (h : Inv σ) (op : Op) (hc : op.core = true) (hs : step σ op = .ok σ') :
+    Inv σ' := by
+  cases op <;> simp only [Op.core, Bool.false_eq_true] at hc <;> simp only [step] at hs
+  case new bb => cases hs; exact inv_new h bb
+  case append t w dt el =>
+    split at hs
+    · cases hs; exact (append_spec h (by assumption) el w dt).1
+    · cases hs
+  case view t bb =>
+    split at hs
+    · cases hs; exact inv_viewCtor h (by assumption) bb
+    · cases hs
+  case copy t =>
+    split at hs
+    · cases hs; exact inv_copyOp h (by assumption)
+    · cases hs
+  case slice t sl =>
+    split at hs
+    · split at hs
+      · cases hs
+      · cases hs; exact inv_getView h (by assumption) _
+    · cases hs
+  case fancy t idx =>
+    split at hs
+    · split at hs
+      · cases hs; exact inv_getView h (by assumption) _
+      · cases hs
+    · cases hs
+  case mask t m =>
+    split at hs
+    · split at hs
+      · cases hs; exact inv_getView h (by assumption) _
+      · cases hs
+    · cases hs
+  case getInt t i =>
+    split at hs
+    · split at hs
+      · cases hs; exact h
+      · cases hs
+    · cases hs
+  case setInt t i el =>
+    split at hs
+    · rename_i ht
+      split at hs
+      · rename_i j hj
+        split at hs
+        · rename_i hl
+          cases hs
+          exact inv_setRange h ht (getD_mem _ _ _ (pyIntIndex_lt hj)) hl.symm
+        · cases hs
+      · cases hs
+    · cases hs
+  case setSlice t sl els =>
+    split at hs
+    · rename_i ht
+      split at hs
+      · cases hs
+      · split at hs
+        · rename_i hm
+          cases hs
+          exact (setMany_inv _ els h ht (fun _ hr => mem_of_filterMap_get hr) hm).1
+        · cases hs
+    · cases hs
+  case iop t code k =>
+    split at hs
+    · rename_i ht
+      split at hs
+      · rename_i σ'' hi
+        cases hs
+        exact (inv_iop h ht code k hi).1
+      · cases hs
+    · cases hs
+
+/-- `inv_run` for the proved fragment: the invariant holds after EVERY history of core operations
+    (any length, any number of live sequences, views of views …).
+    FULL STATEMENT (not yet proved): the same without `hc`, i.e. including `extend`, `extendGen`,
+    `extendSeq`, `op`, `concat`; missing: the loop invariant of the cached build. -/
+theorem inv_run_partial (ops : List Op) (hc : ∀ op ∈ ops, op.core = true) :
+    ∀ {σ : State}, Inv σ → Inv (run σ ops) := by
+  induction ops with
+  | nil => intro σ h; exact h
+  | cons op ops ih =>
+    intro σ h
+    simp only [run]
+    split
+    · rename_i σ' hs
+      exact ih (fun o ho => hc o (by simp [ho])) (inv_step h op (hc op (by simp)) hs)
+    · exact ih (fun o ho => hc o (by simp [ho])) h
+
+example : Inv (run State.init [.new 48, .append 0 3 1 [[1,2,3],[4,5,6]], .slice 0 ⟨none, some 1, none⟩,
+    .append 1 3 1 [[7,8,9]], .setInt 0 0 [[0,0,0],[0,0,0]], .iop 1 0 10]) :=
+  inv_run_partial _ (by decide) inv_init
+
+/-- `s.append(el)` is list append — on an owner AND on a view — and changes no other sequence
+    (this is `growing_view_preserves_parent` for `append`: `t` may be a view of `u`'s buffer). -/
+theorem append_is_list_append {σ : State} (h : Inv σ) {t : Nat} (ht : t < σ.seqs.length)
+    (el : Elem) (w dt : Nat) :
+    (append σ t el w dt).contents t = σ.contents t ++ (if el.isEmpty then [] else [el]) ∧
+    ∀ u, u ≠ t → u < σ.seqs.length → (append σ t el w dt).contents u = σ.contents u :=
+  ⟨(append_spec h ht el w dt).2.2.1, (append_spec h ht el w dt).2.2.2⟩
+
+/-- FULL STATEMENT (not yet proved): also for `extendList`, `extendGen`, `extendSeq`.
+    Proved: growing a view by `append` leaves the sequence it was taken from (and every other
+    live sequence) exactly as it was — for every reachable state, every slice, every element. -/
+theorem growing_view_preserves_parent_partial {σ : State} (h : Inv σ) {p : Nat} (hp : p < σ.seqs.length)
+    (pos : List Nat) (el : Elem) (w dt : Nat) :
+    let σv := getView σ p pos
+    let v := σ.seqs.length
+    ∀ u, u < σ.seqs.length → (append σv v el w dt).contents u = σ.contents u := by
+  intro σv v u hu
+  have hv : Inv σv := inv_getView h hp pos
+  have hlen : σv.seqs.length = σ.seqs.length + 1 := addSeq_length _ _
+  rw [(append_spec hv (by omega) el w dt).2.2.2 u (by omega) (by omega)]
+  exact getView_contents_old σ p pos hu
+
+example : Inv (run State.init [.new 0, .append 0 1 1 [[1],[2]], .append 0 1 1 [[3]]]) :=
+  inv_run_partial _ (by decide) inv_init
+
+/-- `s.copy()` shows the same arrays and changes nothing else -/
+theorem copy_is_list_copy {σ : State} (h : Inv σ) {t : Nat} (ht : t < σ.seqs.length) :
+    (copyOp σ t).contents σ.seqs.length = σ.contents t ∧
+    ∀ u, u < σ.seqs.length → (copyOp σ t).contents u = σ.contents u :=
+  ⟨copyOp_contents_new h ht, fun _ hu => copyOp_contents_old h t hu⟩
+
+theorem contents_length (σ : State) (t : Nat) : (σ.contents t).length = (σ.seqAt t).ranges.length := by
+  simp [State.contents, contentsOf]
+
+/-- `s[a:b:c]` is Python list slicing of the arrays (`PySlice.apply`), and changes nothing else -/
+theorem slice_is_list_slice (σ : State) (t : Nat) (sl : PySlice) :
+    (getView σ t (sl.sel (σ.seqAt t).ranges.length)).contents σ.seqs.length = sl.apply (σ.contents t) ∧
+    ∀ u, u < σ.seqs.length →
+      (getView σ t (sl.sel (σ.seqAt t).ranges.length)).contents u = σ.contents u := by
+  refine ⟨?_, fun u hu => getView_contents_old σ t _ hu⟩
+  rw [getView_contents_new, PySlice.apply, contents_length]
+
+/-- element assignment through a view `v = p[pos]`: in the parent exactly the elements stored at the
+    place of `v[j]` take the new value, every other element of the parent keeps its value -/
+theorem view_setitem_hits_parent_exactly {σ : State} (h : Inv σ) {p : Nat} (hp : p < σ.seqs.length)
+    (pos : List Nat) (r : Nat × Nat) (el : Elem) (hl : el.length = r.2)
+    (hr : r ∈ ((getView σ p pos).seqAt σ.seqs.length).ranges) :
+    (setRange (getView σ p pos) ((getView σ p pos).seqAt σ.seqs.length).buf r el).contents p =
+      (σ.seqAt p).ranges.map (fun q => if q = r then el else (σ.bufAt (σ.seqAt p).buf).slice q.1 q.2) := by
+  have hv : Inv (getView σ p pos) := inv_getView h hp pos
+  have hlen : (getView σ p pos).seqs.length = σ.seqs.length + 1 := addSeq_length _ _
+  have hvs : (getView σ p pos).seqAt σ.seqs.length =
+      { buf := (σ.seqAt p).buf, ranges := pos.filterMap (fun i => (σ.seqAt p).ranges[i]?), isView := true,
+        bufBytes := defaultBufBytes } := by
+    unfold getView; rw [seqAt_addSeq, if_pos rfl]
+  have hps : (getView σ p pos).seqAt p = σ.seqAt p := by
+    unfold getView; rw [seqAt_addSeq, if_neg (by omega)]
+  rw [setRange_contents hv (t := σ.seqs.length) (by omega) hr hl (u := p) (by omega)]
+  rw [hps, hvs]
+  simp only [true_and]
+  rfl
+
+example : ∃ r, r ∈ ((getView (run State.init [.new 0, .append 0 1 1 [[1],[2]], .append 0 1 1 [[3]]]) 0 [1]).seqAt 1).ranges :=
+  ⟨(2, 1), by decide⟩
+
+/-- `seq[i] = arr` seen from any live sequence `u`: exactly the elements of `u` stored at the same
+    place of the same buffer as `seq[i]` take the new value (list element assignment + links) -/
+theorem setitem_is_list_setitem {σ : State} (h : Inv σ) {t : Nat} (ht : t < σ.seqs.length)
+    {r : Nat × Nat} (hr : r ∈ (σ.seqAt t).ranges) {el : Elem} (hl : el.length = r.2)
+    {u : Nat} (hu : u < σ.seqs.length) :
+    (setRange σ (σ.seqAt t).buf r el).contents u =
+      (σ.seqAt u).ranges.map (fun q =>
+        if (σ.seqAt u).buf = (σ.seqAt t).buf ∧ q = r then el
+        else (σ.bufAt (σ.seqAt u).buf).slice q.1 q.2) :=
+  setRange_contents h ht hr hl hu
+
+/-- in-place arithmetic through `t` seen from any live sequence `u`: NONE of `u`'s arrays change when
+    `u` does not share `t`'s buffer; otherwise ALL the arrays `u` shares with `t` (and only those)
+    get the operation — never a part of them.  (`Nodup`: `t` selects no array twice.) -/
+theorem iop_all_or_none {σ σ' : State} (h : Inv σ) {t : Nat} (ht : t < σ.seqs.length) (code : Nat) (k : Int)
+    (hnd : (σ.seqAt t).ranges.Nodup) (hs : iop (arith code k) σ t = some σ')
+    {u : Nat} (hu : u < σ.seqs.length) :
+    σ'.contents u = (σ.seqAt u).ranges.map (fun q =>
+      if (σ.seqAt u).buf = (σ.seqAt t).buf ∧ q ∈ (σ.seqAt t).ranges
+      then arith code k ((σ.bufAt (σ.seqAt u).buf).slice q.1 q.2)
+      else (σ.bufAt (σ.seqAt u).buf).slice q.1 q.2) := by
+  unfold iop at hs
+  simp only at hs
+  split at hs
+  · cases hs
+  · cases hs
+    have hts := get_seqAt ht
+    have hus := get_seqAt hu
+    obtain ⟨fs, fh, fb⟩ := opLoop_frame (arith code k) (σ.seqAt t).buf (σ.seqAt t).ranges σ
+    have hsu : (opLoop (arith code k) σ (σ.seqAt t).buf (σ.seqAt t).buf (σ.seqAt t).ranges
+        (σ.seqAt t).ranges).seqAt u = σ.seqAt u := by
+      show List.getD _ u default = _
+      rw [fs]; rfl
+    simp only [contents_def, contentsOf, hsu]
+    apply List.map_congr_left
+    intro q hq
+    by_cases hb : (σ.seqAt u).buf = (σ.seqAt t).buf
+    · rw [hb]
+      have := opLoop_slice (arith code k) (arith_length code k) (σ.seqAt t).buf (σ.seqAt t).ranges σ
+        (h.bufLt t _ hts) hnd
+        (fun r hr => ⟨h.inb t _ hts r hr, h.pos t _ hts r hr⟩)
+        (h.cells t t _ _ hts hts rfl)
+        q (by have := h.inb u _ hus q hq; rw [hb] at this; exact this) (h.pos u _ hus q hq)
+        (fun r hr => h.cells u t _ _ hus hts hb q hq r hr)
+      rw [this]
+      simp only [true_and]
+    · simp only [hb, false_and, if_false]
+      rw [fb _ hb]
+example : let σ := run State.init [.new 0, .append 0 1 1 [[1],[2]], .append 0 1 1 [[3]], .slice 0 ⟨none, none, some (-1)⟩]
+    (σ.seqAt 1).ranges.Nodup ∧ (iop (arith 0 10) σ 1).isSome = true ∧ (σ.seqAt 0).buf = (σ.seqAt 1).buf := by
+  decide
+
+/-- operations of the write-free proved fragment -/
+def Op.growOnly : Op → Bool
+  | .new _ | .append .. | .view .. | .copy _ | .slice .. | .fancy .. | .mask .. | .getInt .. => true
+  | _ => false
+
+/-- the reference: plain Python lists of arrays; a zero-row array is never stored; `none` = raises -/
+def refStep (ρ : List (List Elem)) : Op → Option (List (List Elem))
+  | .new _ => some (ρ ++ [[]])
+  | .append t _ _ el =>
+      if t < ρ.length then some (ρ.set t (ρ.getD t [] ++ (if el.isEmpty then [] else [el]))) else none
+  | .view t _ => if t < ρ.length then some (ρ ++ [ρ.getD t []]) else none
+  | .copy t => if t < ρ.length then some (ρ ++ [ρ.getD t []]) else none
+  | .slice t sl =>
+      if t < ρ.length then (if sl.stepVal = 0 then none else some (ρ ++ [sl.apply (ρ.getD t [])])) else none
+  | .fancy t idx =>
+      if t < ρ.length then
+        (fancyPos (ρ.getD t []).length idx).map (fun pos => ρ ++ [pos.filterMap (fun i => (ρ.getD t [])[i]?)])
+      else none
+  | .mask t m =>
+      if t < ρ.length then
+        (maskPos (ρ.getD t []).length m).map (fun pos => ρ ++ [pos.filterMap (fun i => (ρ.getD t [])[i]?)])
+      else none
+  | .getInt t i => if t < ρ.length then (pyIntIndex (ρ.getD t []).length i).map (fun _ => ρ) else none
+  | _ => none
+
+def refRun (ρ : List (List Elem)) : List Op → List (List Elem)
+  | [] => ρ
+  | op :: ops => match refStep ρ op with
+    | some ρ' => refRun ρ' ops
+    | none => refRun ρ ops
+
+/-- model state and reference agree on every live sequence -/
+structure Rel (σ : State) (ρ : List (List Elem)) : Prop where
+  inv : Inv σ
+  len : σ.seqs.length = ρ.length
+  same : ∀ u, u < σ.seqs.length → σ.contents u = ρ.getD u []
+
+theorem rel_add {σ σ' : State} {ρ : List (List Elem)} (hR : Rel σ ρ) (x : List Elem) (hi : Inv σ')
+    (hl : σ'.seqs.length = σ.seqs.length + 1) (hnew : σ'.contents σ.seqs.length = x)
+    (hold : ∀ u, u < σ.seqs.length → σ'.contents u = σ.contents u) : Rel σ' (ρ ++ [x]) := by
+  refine ⟨hi, by simp [hl, hR.len], ?_⟩
+  intro u hu
+  by_cases h : u < σ.seqs.length
+  · rw [hold u h, hR.same u h]
+    simp only [List.getD_eq_getElem?_getD, List.getElem?_append]
+    rw [if_pos (by rw [← hR.len]; exact h)]
+  · have : u = σ.seqs.length := by omega
+    subst this
+    rw [hnew]
+    simp only [List.getD_eq_getElem?_getD, List.getElem?_append, hR.len]
+    simp
+
+theorem step_refines {σ : State} {ρ : List (List Elem)} (hR : Rel σ ρ) (op : Op) (hc : op.growOnly = true) :
+    (∀ σ', step σ op = .ok σ' → ∃ ρ', refStep ρ op = some ρ' ∧ Rel σ' ρ') ∧
+    (∀ e, step σ op = .error e → refStep ρ op = none) := by
+  have hlen := hR.len
+  have hcl : ∀ t, t < σ.seqs.length → (ρ.getD t []).length = (σ.seqAt t).ranges.length := by
+    intro t ht; rw [← hR.same t ht, contents_length]
+  cases op <;> simp only [Op.growOnly, Bool.false_eq_true] at hc <;> simp only [step, refStep, ← hlen]
+  case new bb =>
+    refine ⟨?_, fun e he => by cases he⟩
+    intro σ' hs; cases hs
+    refine ⟨_, rfl, rel_add hR [] (inv_new hR.inv bb) ?_ ?_ ?_⟩
+    · rw [addSeq_length, alloc_seqs]
+    · have := contents_addSeq_new (σ.alloc { rows := [], cap := 0, dt := 0 }).1
+        { buf := σ.heap.length, ranges := [], isView := false, bufBytes := bb }
+      rw [alloc_seqs] at this
+      exact this
+    · intro u hu
+      rw [contents_addSeq_old _ _ (by rw [alloc_seqs]; exact hu), contents_alloc hR.inv _ hu]
+  case append t w dt el =>
+    by_cases ht : t < σ.seqs.length
+    · simp only [ht, if_true]
+      refine ⟨?_, fun e he => by cases he⟩
+      intro σ' hs; cases hs
+      obtain ⟨a1, a2, a3, a4⟩ := append_spec hR.inv ht el w dt
+      refine ⟨_, rfl, a1, by simp [a2, hlen], ?_⟩
+      intro u hu
+      rw [a2] at hu
+      by_cases hut : u = t
+      · subst hut
+        rw [a3, hR.same u hu]
+        simp only [List.getD_eq_getElem?_getD, List.getElem?_set, ← hlen, hu, if_true]
+        simp
+      · rw [a4 u hut hu, hR.same u hu]
+        simp only [List.getD_eq_getElem?_getD, List.getElem?_set]
+        rw [if_neg (by omega)]
+    · simp only [ht, if_false]
+      exact ⟨fun _ hs => (nomatch hs), fun _ _ => trivial⟩
+  case view t bb =>
+    by_cases ht : t < σ.seqs.length
+    · simp only [ht, if_true]
+      refine ⟨?_, fun e he => by cases he⟩
+      intro σ' hs; cases hs
+      refine ⟨_, rfl, rel_add hR _ (inv_viewCtor hR.inv ht bb) (addSeq_length _ _) ?_ ?_⟩
+      · rw [viewCtor_contents_new, hR.same t ht]
+      · exact fun u hu => viewCtor_contents_old σ t bb hu
+    · simp only [ht, if_false]
+      exact ⟨fun _ hs => (nomatch hs), fun _ _ => trivial⟩
+  case copy t =>
+    by_cases ht : t < σ.seqs.length
+    · simp only [ht, if_true]
+      refine ⟨?_, fun e he => by cases he⟩
+      intro σ' hs; cases hs
+      refine ⟨_, rfl, rel_add hR _ (inv_copyOp hR.inv ht) ?_ ?_ ?_⟩
+      · rw [copyOp_eq, addSeq_length, alloc_seqs]
+      · rw [copyOp_contents_new hR.inv ht, hR.same t ht]
+      · exact fun u hu => copyOp_contents_old hR.inv t hu
+    · simp only [ht, if_false]
+      exact ⟨fun _ hs => (nomatch hs), fun _ _ => trivial⟩
+  case slice t sl =>
+    by_cases ht : t < σ.seqs.length
+    · simp only [ht, if_true]
+      by_cases h0 : sl.stepVal = 0
+      · simp only [h0, if_true]
+        exact ⟨fun _ hs => (nomatch hs), fun _ _ => trivial⟩
+      · simp only [h0, if_false]
+        refine ⟨?_, fun e he => by cases he⟩
+        intro σ' hs; cases hs
+        refine ⟨_, rfl, rel_add hR _ (inv_getView hR.inv ht _) (addSeq_length _ _) ?_ ?_⟩
+        · rw [(slice_is_list_slice σ t sl).1, hR.same t ht]
+        · exact fun u hu => getView_contents_old σ t _ hu
+    · simp only [ht, if_false]
+      exact ⟨fun _ hs => (nomatch hs), fun _ _ => trivial⟩
+  case fancy t idx =>
+    by_cases ht : t < σ.seqs.length
+    · simp only [ht, if_true, hcl t ht]
+      cases hp : fancyPos (σ.seqAt t).ranges.length idx with
+      | none => exact ⟨fun _ hs => (nomatch hs), fun _ _ => rfl⟩
+      | some pos =>
+        refine ⟨?_, fun e he => by cases he⟩
+        intro σ' hs; cases hs
+        refine ⟨_, rfl, rel_add hR _ (inv_getView hR.inv ht _) (addSeq_length _ _) ?_ ?_⟩
+        · rw [getView_contents_new, hR.same t ht]
+        · exact fun u hu => getView_contents_old σ t _ hu
+    · simp only [ht, if_false]
+      exact ⟨fun _ hs => (nomatch hs), fun _ _ => trivial⟩
+  case mask t m =>
+    by_cases ht : t < σ.seqs.length
+    · simp only [ht, if_true, hcl t ht]
+      cases hp : maskPos (σ.seqAt t).ranges.length m with
+      | none => exact ⟨fun _ hs => (nomatch hs), fun _ _ => rfl⟩
+      | some pos =>
+        refine ⟨?_, fun e he => by cases he⟩
+        intro σ' hs; cases hs
+        refine ⟨_, rfl, rel_add hR _ (inv_getView hR.inv ht _) (addSeq_length _ _) ?_ ?_⟩
+        · rw [getView_contents_new, hR.same t ht]
+        · exact fun u hu => getView_contents_old σ t _ hu
+    · simp only [ht, if_false]
+      exact ⟨fun _ hs => (nomatch hs), fun _ _ => trivial⟩
+  case getInt t i =>
+    by_cases ht : t < σ.seqs.length
+    · simp only [ht, if_true, hcl t ht]
+      cases hp : pyIntIndex (σ.seqAt t).ranges.length i with
+      | none => exact ⟨fun _ hs => (nomatch hs), fun _ _ => rfl⟩
+      | some j =>
+        refine ⟨?_, fun e he => by cases he⟩
+        intro σ' hs; cases hs
+        exact ⟨_, rfl, hR⟩
+    · simp only [ht, if_false]
+      exact ⟨fun _ hs => (nomatch hs), fun _ _ => trivial⟩
+
+/-- `refines_list` for the write-free fragment: after EVERY history (any length, any number of live
+    sequences, views of views, growing views) of {new, one-shot append, ArraySequence(seq), copy,
+    slice / list / mask / int getitem}, every live sequence shows exactly what the plain Python list
+    of arrays shows after the same history, and an operation raises exactly when the list does.
+    FULL STATEMENT (not yet proved): the same for histories over ALL of `Op`, against a reference with
+    explicit links for the writes.  Missing: the cached-build loops (`extend*`, `op`, `concat`); the
+    writes are characterised state-by-state by `setitem_is_list_setitem`, `iop_all_or_none` and
+    `view_setitem_hits_parent_exactly` (under `Inv`, which `inv_run_partial` establishes). -/
+theorem refines_list_partial (ops : List Op) (hc : ∀ op ∈ ops, op.growOnly = true) :
+    ∀ {σ : State} {ρ : List (List Elem)}, Rel σ ρ → Rel (run σ ops) (refRun ρ ops) := by
+  induction ops with
+  | nil => intro σ ρ h; exact h
+  | cons op ops ih =>
+    intro σ ρ hR
+    have hs := step_refines hR op (hc op (by simp))
+    simp only [run, refRun]
+    cases hst : step σ op with
+    | ok σ' =>
+      obtain ⟨ρ', h1, h2⟩ := hs.1 σ' hst
+      simp only [h1]
+      exact ih (fun o ho => hc o (by simp [ho])) h2
+    | error e =>
+      simp only [hs.2 e hst]
+      exact ih (fun o ho => hc o (by simp [ho])) hR
+
+theorem rel_init : Rel State.init [] := ⟨inv_init, rfl, fun u hu => by simp [State.init] at hu⟩
+
+example : (run State.init [.new 48, .append 0 3 1 [[1,2,3],[4,5,6]], .append 0 3 1 [[7,8,9]],
+      .slice 0 ⟨none, some 1, none⟩, .append 1 3 1 [[0,0,0]], .copy 1, .fancy 0 [1, 0, 0]]).contents 1
+    = [[[1,2,3],[4,5,6]], [[0,0,0]]] := by decide
+
+example : Rel (run State.init [.new 48, .append 0 3 1 [[1,2,3],[4,5,6]], .slice 0 ⟨none, some 1, none⟩,
+      .append 1 3 1 [[0,0,0]], .copy 1])
+    (refRun [] [.new 48, .append 0 3 1 [[1,2,3],[4,5,6]], .slice 0 ⟨none, some 1, none⟩,
+      .append 1 3 1 [[0,0,0]], .copy 1]) :=
+  refines_list_partial _ (by decide) rel_init
+
+/-! ### witnesses about the ORIGINAL (pinned) logic -/
+
+/-- parent `[[1],[2]]`, `[[3]]` with spare capacity; `v = parent[:1]; v.append([[9]])` -/
+def origHist : State :=
+  run State.init [.new 0, .append 0 1 1 [[1],[2]], .append 0 1 1 [[3]], .slice 0 ⟨none, some 1, none⟩]
+
+/-- pinned `append` on a view wrote into the shared buffer at the view's own next offset:
+    the parent's second array `[[3]]` became `[[9]]` -/
+theorem orig_view_append_overwrites_parent :
+    (appendOrig origHist 1 [[9]] 1 1).contents 0 = [[[1],[2]], [[9]]] ∧
+    (append origHist 1 [[9]] 1 1).contents 0 = [[[1],[2]], [[3]]] := by
+  decide
+
+/-- pinned `view += 10` with `view = parent[:]` over two arrays: only the first shared array of
+    the parent changed (the repaired logic changes both) -/
+theorem orig_iop_partial :
+    let σ := run State.init [.new 0, .append 0 1 1 [[1],[2]], .append 0 1 1 [[3]], .slice 0 ⟨none, none, none⟩]
+    (iopOrig (arith 0 10) σ 1).map (·.contents 0) = some [[[11],[12]], [[3]]] ∧
+    (iop (arith 0 10) σ 1).map (·.contents 0) = some [[[11],[12]], [[13]]] := by
+  decide
 
 end Nb.C15
